@@ -473,6 +473,81 @@ def special_bundle_port_probes(rec):
                               case=case, target="special-port", replaced_kinds="bun")
 
 
+def copied_instance_probes(rec):
+    """Connection histories which go through COPIES of an instance (a partially connected template copied, each copy completed on its
+    own; a copy re-connected; the original re-connected after the copy was taken): each instance ends up with the connections last
+    made ON IT, whatever happened to its original or its siblings afterwards."""
+    import copy as _copy
+
+    import hdl21 as h
+
+    X = h.ExternalModule(name=f"CpX{next(build._counter)}", port_list=[h.Port(name="p"), h.Port(name="n"), h.Port(name="b", width=2)], paramtype=h.HasNoParams)
+    for target in ("single", "array", "pair"):
+        for story in ("complete-copies", "reconnect-copy", "reconnect-original", "disconnect-on-copy", "copy-of-copy"):
+            rec.count("probe.copied-instances")
+            case = {"kind": "copied-instance", "target": target, "story": story}
+            rec.case(key=jhash(case), nontrivial=True, sample=case)
+            m = h.Module(name=f"CpTop{next(build._counter)}")
+            for nm in ("vss", "x", "y", "z"):
+                m.add(h.Signal(), name=nm)
+            m.add(h.Signal(width=2), name="bb")
+            m.add(h.Signal(width=2), name="cc")
+            mk = {"single": lambda: h.Instance(of=X()), "array": lambda: h.InstanceArray(X(), 1), "pair": None}[target]
+            if target == "pair":
+                continue  # (a Pair takes bundle-valued connections: covered by C05's instance-bundle probes)
+            tmpl = mk()(n=m.vss, b=m.bb)
+            want = {}
+            try:
+                if story == "complete-copies":
+                    i1, i2 = _copy.copy(tmpl), _copy.copy(tmpl)
+                    i1.p = m.x
+                    i2.p = m.y
+                    want = {"i1": {"p": "x", "n": "vss", "b": "bb"}, "i2": {"p": "y", "n": "vss", "b": "bb"}}
+                elif story == "reconnect-copy":
+                    tmpl.p = m.x
+                    i1, i2 = _copy.copy(tmpl), tmpl
+                    i1.replace("b", m.cc) if hasattr(i1, "replace") else i1.connect("b", m.cc)
+                    i1.p = m.y
+                    want = {"i1": {"p": "y", "n": "vss", "b": "cc"}, "i2": {"p": "x", "n": "vss", "b": "bb"}}
+                elif story == "reconnect-original":
+                    tmpl.p = m.x
+                    i1, i2 = _copy.copy(tmpl), tmpl
+                    i2.p = m.z
+                    i2.connect("b", m.cc)
+                    want = {"i1": {"p": "x", "n": "vss", "b": "bb"}, "i2": {"p": "z", "n": "vss", "b": "cc"}}
+                elif story == "disconnect-on-copy":
+                    tmpl.p = m.x
+                    i1, i2 = _copy.copy(tmpl), tmpl
+                    i1.disconnect("p")
+                    i1.p = m.y
+                    want = {"i1": {"p": "y", "n": "vss", "b": "bb"}, "i2": {"p": "x", "n": "vss", "b": "bb"}}
+                else:
+                    i1 = _copy.copy(_copy.copy(tmpl))
+                    i2 = _copy.copy(tmpl)
+                    i1.p = m.x
+                    i2.p = m.y
+                    tmpl.p = m.z
+                    want = {"i1": {"p": "x", "n": "vss", "b": "bb"}, "i2": {"p": "y", "n": "vss", "b": "bb"}}
+                i1.name = i2.name = None
+                m.add(i1, name="i1")
+                m.add(i2, name="i2")
+                pkg = h.to_proto(m)
+            except Exception as e:
+                rec.count("ops.refused")
+                rec.count("probe.copied-instances-refused")
+                continue
+            got = {}
+            for inst in pkg.modules[-1].instances:
+                nm = inst.name[:2]
+                for c in inst.connections:
+                    t = c.target
+                    got.setdefault(nm, {})[c.portname] = t.sig if t.WhichOneof("stype") == "sig" else (t.slice.signal if t.WhichOneof("stype") == "slice" else str(t))
+            rec.count("probe.copied-instances-compared")
+            if got != want:
+                rec.violation("history-leaves-trace", f"{target} instances made by copy.copy() ({story}): connections written {want}, the package has {got}",
+                              case=case, target="copied-instance", replaced_kinds="sig")
+
+
 def run(ctx, rec):
     rng = ctx.rng("c04")
     cases = []
@@ -522,6 +597,7 @@ def run(ctx, rec):
     if ctx.shard == 0:
         special_port_probes(rec)
         special_bundle_port_probes(rec)
+        copied_instance_probes(rec)
     rec.exhaustive = False
     rec.extra["kind_sequences_enumerated"] = len(seqs)
 
@@ -532,6 +608,9 @@ def shards(ctx):
 
 def replay(ctx, rec, case):
     # re-install the concrete expressions
+    if case.get("kind") == "copied-instance":
+        copied_instance_probes(rec)
+        return
     if case.get("kind") == "special-port":
         special_port_probes(rec)
         special_bundle_port_probes(rec)
